@@ -7,6 +7,8 @@ package querylog
 //
 //vx:overlay internal/querylog/zz_vx_c07k.go
 //vx:entry vxC07Status reach=selected,not-selected,unknown-status
+//vx:stub unicode.SimpleFold vxC07SimpleFold
+//vx:entry vxC07TermSym reach=strict-hit,strict-miss,substring-hit,substring-miss,quick-dropped
 //vx:entry vxC07Term reach=strict-hit,strict-miss,substring-hit,substring-miss,by-host,by-name,by-clientid,by-ip,quick-dropped
 
 import (
@@ -14,6 +16,7 @@ import (
 	"fmt"
 	"log/slog"
 	"net"
+	"unicode"
 
 	"github.com/AdguardTeam/AdGuardHome/internal/filtering"
 	"github.com/AdguardTeam/AdGuardHome/internal/vx"
@@ -242,5 +245,132 @@ func vxC07Term() {
 				vx.Reach("quick-dropped")
 			}
 		}
+	}
+}
+
+// ---- search term, symbolic bytes ---------------------------------------------
+
+// vxC07SimpleFold replaces unicode.SimpleFold on symbolic runes by the exact
+// folding orbits of the runes the symbolic entry allows (ASCII, plus the two
+// non-ASCII members of the orbits of k and s); concrete runes go to the real
+// function.
+func vxC07SimpleFold(r rune) rune {
+	if vx.IsConcrete(r) {
+		return unicode.SimpleFold(r)
+	}
+	switch {
+	case r == 'k':
+		return 0x212A // Kelvin sign
+	case r == 's':
+		return 0x17F // long s
+	case r == 0x212A:
+		return 'K'
+	case r == 0x17F:
+		return 'S'
+	case 'A' <= r && r <= 'Z':
+		return r + ('a' - 'A')
+	case 'a' <= r && r <= 'z':
+		return r - ('a' - 'A')
+	case 0 <= r && r < 0x80:
+		return r
+	}
+	vx.Fail("harness: unicode.SimpleFold on a symbolic rune outside the modelled ones")
+	return r
+}
+
+// vxC07FoldEq: two ASCII bytes are equal ignoring letter case (no fork).
+func vxC07FoldEq(a, b byte) bool {
+	l := a | 0x20
+	letter := vx.And('a' <= l, l <= 'z')
+	return vx.Or(a == b, vx.And(letter, a^b == 0x20))
+}
+
+// vxC07ContainsSym: term occurs in s (is the whole of s), ignoring ASCII
+// letter case; one formula, no fork.
+func vxC07ContainsSym(s, term string, whole bool) bool {
+	if whole && len(s) != len(term) {
+		return false
+	}
+	r := false
+	for i := 0; i+len(term) <= len(s); i++ {
+		ok := true
+		for j := 0; j < len(term); j++ {
+			ok = vx.And(ok, vxC07FoldEq(s[i+j], term[j]))
+		}
+		r = vx.Or(r, ok)
+	}
+	return r
+}
+
+func vxC07AssumeASCII(s string) {
+	for i := 0; i < len(s); i++ {
+		vx.Assume(s[i] < 0x80)
+	}
+}
+
+// vxC07TermSym: like vxC07Term with every byte of the field and of the term
+// symbolic (any ASCII byte): the solver decides whether some field / term pair
+// is selected wrongly.
+func vxC07TermSym() {
+	maxField, maxTerm := 2, 2
+	if vx.Thorough() {
+		maxField = 3
+	}
+	which := vx.Choice("field", 3)
+	f := vx.String("value", 1+vx.Choice("valueLen", maxField))
+	vxC07AssumeASCII(f)
+	term := vx.String("term", 1+vx.Choice("termLen", maxTerm))
+	vxC07AssumeASCII(term)
+	strict := vx.Bool("quoted")
+	host, name, cid, ip := "", "", "", net.IP{0, 0, 0, 0, 0, 0, 0, 0, 0, 0, 0, 0, 0, 0, 0, 1}
+	var cli *Client
+	switch which {
+	case 0:
+		host = f
+	case 1:
+		name = f
+		cli = &Client{Name: name}
+	default:
+		cid = f
+	}
+	e := &logEntry{QHost: host, ClientID: cid, IP: ip, client: cli}
+	p := &searchParams{searchCriteria: []searchCriterion{{criterionType: ctTerm, value: term, strict: strict}}}
+	got := p.match(e)
+	// the address "::1" is the other non-empty value
+	want := vx.Or(vxC07ContainsSym(f, term, strict), vxC07ContainsSym("::1", term, strict))
+	vx.Known("C07-containsfold-lower-k-s", vx.And(!strict, vx.Or(term[0] == 'k', term[0] == 's')))
+	vx.Assert(got == want, "a search term selects exactly the entries whose host, client name, ClientID or address contains it (equals it when quoted), ignoring letter case")
+	switch {
+	case strict && got:
+		vx.Reach("strict-hit")
+	case strict:
+		vx.Reach("strict-miss")
+	case got:
+		vx.Reach("substring-hit")
+	default:
+		vx.Reach("substring-miss")
+	}
+
+	// the quick pre-match on the line as json.Marshal frames it; bytes that the
+	// encoder escapes are left to the full match (host names and ClientIDs do
+	// not contain them)
+	for i := 0; i < len(f); i++ {
+		c := f[i]
+		vx.Assume(vx.And(c >= 0x20, c != 0x7f))
+		vx.Assume(vx.And(vx.And(c != '"', c != '\\'), vx.And(vx.And(c != '<', c != '>'), c != '&')))
+	}
+	line := `{"T":"2024-05-06T07:08:09.123456789Z","QH":"` + host + `","QT":"A","QC":"IN",`
+	if cid != "" {
+		line += `"CID":"` + cid + `",`
+	}
+	line += `"CP":"","IP":"::1","Result":{"Rules":[{"IP":"0.0.0.0","Text":"||x^"}]},"Elapsed":7}`
+	finder := func(_ context.Context, _ *slog.Logger, clientID, addr string) *Client {
+		vx.Assert(clientID == cid && addr == "::1", "the quick pre-match looks the client up by the stored ClientID and address")
+		return cli
+	}
+	q := p.quickMatch(context.Background(), slog.Default(), line, finder)
+	vx.Assert(vx.Implies(got, q), "the quick pre-match on the stored line never drops an entry the full match selects")
+	if !q {
+		vx.Reach("quick-dropped")
 	}
 }
